@@ -70,7 +70,10 @@ def main():
             "level_note": "Decides the structural clauses listed in DESIGN §4 for this property, not the behaviour "
                           "itself. Trusted base: Python ast, the numpy/multiprocessing/IO semantics encoded in vk/, "
                           "the hand-written role/oracle tables in checks/. Genuine defects already in the tree are "
-                          "listed in known_findings.json and reported as KNOWN-FINDING.",
+                          "listed in known_findings.json and reported as KNOWN-FINDING. Renames of locals, re-formatting and added "
+                          "logging are normalised away (DESIGN §10); a refactor that renames attributes / task keys / functions or "
+                          "restructures an anchored construct can make a rule report ANALYSIS-ERROR or a finding although behaviour "
+                          "is unchanged — the main remaining false-alarm risk.",
             "technique": "static analysis: " + tech,
         })
     na = [{"property_id": p, "reason": PENDING.get(p, "check not built yet in this session (static rules designed in DESIGN §4; claimed as soon as the check exists)")}
